@@ -4,7 +4,7 @@ CONSTANTS
   Versions <- VersionsQuick
   TypesC <- TypesB
   Depth = "extra"
-  FieldSet = "full"
+  FieldSet = "all"
   Entries <- EntriesUntrusted
   MaxOps = 2
   Heavy <- HeavyMid
